@@ -257,3 +257,19 @@ Print Assumptions C14_PadToFullSector_translated.
 Print Assumptions C14_CreateWriter_translated.
 Print Assumptions C14_Load_translated.
 Print Assumptions C14_write_translated.
+
+(* ================= phase 4: a failing medium =================
+   Proofs/C14_skel_fail.v: (1) a syntactic obligation on the translated skeletons - every statement that does
+   I/O is immediately followed by its error test; (2) the interpreter on a medium whose k-th I/O call fails. *)
+From GoMC Require Proofs.C14_skel_fail.
+
+(* no I/O error can be swallowed: in every translated body each Seek / Read / Write / WriteAt / setHead call is
+   directly followed by `if err != nil { ...return... }` (or by the bare return of the named err) *)
+Theorem C14_io_errors_checked :
+  C14_skel_fail.io_checked C14gen.Load = true /\ C14_skel_fail.io_checked C14gen.CreateWriter = true /\
+  C14_skel_fail.io_checked C14gen.ReadSector = true /\ C14_skel_fail.io_checked C14gen.WriteSector = true /\
+  C14_skel_fail.io_checked C14gen.PadToFullSector = true /\ C14_skel_fail.io_checked C14gen.setHead = true /\
+  C14_skel_fail.io_checked C14gen.findSpace = true /\ C14_skel_fail.io_checked C14gen.ExistSector = true.
+Proof. exact C14_skel_fail.all_io_checked. Qed.
+
+Print Assumptions C14_io_errors_checked.
